@@ -146,6 +146,13 @@ func GetFingerprint(q string) string {
 					fmt.Println("Quote literal")
 				}
 				escape = false
+			} else if qi+1 < len(q) && rune(q[qi+1]) == quoteChar {
+				// '' inside '...' (or "" inside "...") is a quote character of the value,
+				// not its end: the second one is skipped like an escaped quote
+				if Debug {
+					fmt.Println("Doubled quote")
+				}
+				escape = true
 			} else {
 				// 'foo' -> ?
 				// "foo" -> ?
